@@ -767,8 +767,8 @@ func cmdC16(prop, tier string, seed int64, out, statsOut, replay string) {
 					src = dir
 				}
 				entry := map[string]any{"dst": "/opt/probe/entry"}
-				if typ != "" {
-					entry["type"] = typ
+				if typ != "" || mask&4 != 0 {
+					entry["type"] = typ // (spelt out as the empty string in half of the untyped probes)
 				}
 				if mask&1 != 0 {
 					entry["src"] = src
@@ -815,6 +815,14 @@ func cmdC16(prop, tier string, seed int64, out, statsOut, replay string) {
 			emitExpandCase(w, fmt.Sprintf("exp-schema-%s-%d", schema, i), "version_schema: "+schema+"\n"+expandDoc, envs[i], st)
 		}
 		_ = si
+	}
+	// values with brackets and prefixes some tools strip, list items that expand to nothing in the format-specific lists,
+	// the opt-in written in YAML's other spellings of true
+	moreDoc := "name: more\narch: amd64\nversion: 1.0.0\nhomepage: \"<https://example.com/${VX}>\"\nvendor: \"URL:${VX}\"\nmaintainer: \"<${VX}>\"\n" +
+		"deb:\n  predepends: [\"${VEMPTY}\", \"keep-${VX}\", \" ${VEMPTY} \"]\n  breaks: [\"${VEMPTY}\", b]\nipk:\n  predepends: [\"${VEMPTY}\", \"ikeep\"]\n" +
+		"contents:\n  - src: \"s/${VX}\"\n    dst: \"/d/${VX}\"\n    expand: yes\n  - src: \"t/${VX}\"\n    dst: \"/e/${VX}\"\n    expand: on\n  - src: \"u/${VX}\"\n    dst: \"/f/${VX}\"\n    expand: Yes\n  - src: \"v/${VX}\"\n    dst: \"/g/${VX}\"\n    expand: no\n"
+	for i, e := range envs[:3] {
+		emitExpandCase(w, fmt.Sprintf("more-%d", i), moreDoc, e, st)
 	}
 	// a tilde is a character like any other (the process has a HOME; the caller's mapping knows nothing of it)
 	tildeDoc := "name: tilde\narch: amd64\nversion: 1.0.0\ndeb:\n  signature:\n    key_file: \"~/keys/deb.asc\"\nrpm:\n  signature:\n    key_file: \"~\"\napk:\n  signature:\n    key_file: \"~/keys/${VX}.rsa\"\ncontents:\n  - src: \"~/src/${VX}\"\n    dst: \"/~/${VX}\"\n    expand: true\n  - src: \"~/src\"\n    dst: \"/~\"\n"
